@@ -6,6 +6,13 @@ NOTES = ('Static analysis only: every verdict is computed from the ast of /repo/
          'Exit 2 + ANALYSIS-ERROR means the analysis could not decide (never a verdict).')
 
 CHECKS = {
+    'C11': {
+        'level': 'Every misuse listed in C11 is run in the abstract interpreter and must end in ValueError on every path through undetermined '
+                 'branches (complex x / complex valued f for complex-step methods in all five classes, on fresh and on previously used objects; '
+                 'multicomplex n = 3..10; too few steps; wrong output size; directionaldiff / fd_weights / fd_derivative / Residue / path guards).',
+        'note': 'Complex misuse is modelled as "definitely non-real" values; complex dtype with zero imaginary parts is legal input and not covered.',
+        'technique': 'abstract interpretation of the misuse calls (data-abstract and exact-algebra domains): a ValueError guard must dominate every return',
+    },
     'C10': {
         'level': 'Generated sequences of the Basic/Min/Max/C step generators for symbolic base step, ratio and x against the closed forms parsed from the '
                  'class docstrings; ordering; defaults (base step, ratio, nominal step, counts incl. the CStepGenerator docstring formula); option handling; '
